@@ -4,14 +4,19 @@ HOOK_COMMITS = []
 claim("C07", "proof",
       "Machine-checked theorems (Coq) that every construction-time simplification, remap, apply and flatten "
       "yields a node denoting the mathematical definition, for all arenas / opcodes / rule branches and every number "
-      "type satisfying the stated algebraic laws (the reals do); the models are tied to the code on every run by "
-      "stage-wise correspondence (built / flattened DAG exact, optimised DAG modulo AC) of the extracted model against "
-      "the C++ harness, and the property's statement is evaluated on the implementation (values of original vs "
-      "flattened vs optimised vs re-optimised tree, soundness of Tree::eq verdicts).",
-      "Trusted: Coq kernel; translators; ExtrOcamlBasic extraction; OCaml driver's binary32 emulation; harness; "
-      "AC-normaliser.  The optimiser's semantic theorem is not yet proved (model tied by correspondence + oracle only); "
-      "flatten_sem excludes re-flattening of already-transformed oracles.",
-      "Coq proof (induction over arena / fuel) + extraction-based differential correspondence",
+      "type satisfying the stated algebraic laws (the reals do); that Tree::optimized (affine collection, commutative "
+      "re-balancing, deduplication against the canonical map, optimisation of the components of transformed oracles with "
+      "the shared map) preserves the denotation over the reals, for oracle-free sources (C07_optimized_sem) and for sources "
+      "with oracles anywhere, lazy remaps inside oracle coordinates included (C07_flatten_sem_oracles, "
+      "C07_optimized_sem_oracles, under `good`: transformed oracles below an apply have variable-independent components, "
+      "which is what the C++ needs too); Tree::eq verdicts 'equal' are sound (C07_eq_sound, C07_eq_sound_oracles).  The "
+      "models are tied to the code on every run by stage-wise correspondence (built / flattened DAG exact, optimised DAG "
+      "modulo AC) of the extracted model against the C++ harness, and the property's statement is evaluated on the "
+      "implementation (values of original vs flattened vs optimised vs re-optimised tree, soundness of Tree::eq verdicts).",
+      "Trusted: Coq kernel + classical real axioms for the optimiser theorems; translators; ExtrOcamlBasic extraction; OCaml "
+      "driver's binary32 emulation and stability probes; harness; AC-normaliser.  Floating-point re-association by the "
+      "optimiser is outside the theorems (reals) and bounded by the value oracle's tolerance at stable points.",
+      "Coq proof (induction over arena / fuel; level-fuelled optimiser) + extraction-based differential correspondence",
       "DESIGN.md section 6, C07")
 
 claim("C01", "proof",
@@ -156,14 +161,17 @@ claim("C16", "proof",
       "TransformedOracle (one evaluator per coordinate tree, each optimising its tree first as Deck::Deck does, + underlying "
       "oracle, any nesting) computes the composition with the coordinate maps when the coordinate trees depend on x,y,z only "
       "(kernel-checked refutation for free variables) and `opt_ok` holds for the trees involved: that Tree::optimized preserves "
-      "the value and yields plain nodes / oracle leaves.  `opt_ok` is a THEOREM for oracle-free trees (C01/C07) and for the value "
-      "part of trees without lazy remaps; for trees that contain oracles its purity part is a hypothesis of the theorem (the "
-      "optimiser purity development excludes oracle nodes), covered by the correspondence run instead; "
+      "the value and yields plain nodes / oracle leaves.  `opt_ok` is now a THEOREM for every source tree built from constants, "
+      "axes, operations, lazy remaps, user oracles and transformed oracles (C16_opt_ok_discharged; the optimiser model flattens "
+      "and optimises the coordinate trees of a transformed oracle level by level, with a computed level fuel proved sufficient, "
+      "C16_level_fuel_sufficient, and the naive fuel refuted, C16_level_index_insufficient), so for variable-free sources the "
+      "evaluator theorem has purely syntactic hypotheses (C16_evaluator_correct_syntactic); "
       "wrapping: any context (operations, remap chains) over an oracle that computes e denotes the same function as the context "
       "over e; the Jacobian product of evalDerivs is the gradient of the composite (Coquelicot chain rule in three variables); "
       "interval composition is sound and carries the maybe-NaN flag of the coordinate ranges; running the coordinate evaluators "
       "on pushed tapes (oracle contexts) leaves the answer unchanged (from C05).  Tie: flattened DAG (TransformedOracleClause "
-      "placement) and deck (ORACLE clauses, oracle order) exactly equal to the model's; point values of an ExprOracle (an Oracle "
+      "placement, also after optimise steps, modulo AC) and deck (ORACLE clauses, oracle order) equal to the model's; the model's "
+      "level fuel never runs out on generated programs; point values of an ExprOracle (an Oracle "
       "answering every method with a private Evaluator) against the extracted evaluator tower.  Oracle: the same random context "
       "over the oracle and over the plain expression: values, gradients at unambiguous points, feature sets, interval soundness, "
       "nested specialisation bit-identical.  Meshes over oracle trees are not rendered by this check (partial on that clause).",
